@@ -109,6 +109,89 @@ theorem fanout_exact (chars : Nat → Notify.Char) (h : List In) (i : In) :
       have := notify_mem s' ch o e he
       exact ⟨this.1, this.2.1⟩
 
+/-- the values a subscriber of `ch` is told while the updates `us` are made, in order: the value stored after each update
+    that takes effect -/
+def toldValues (s : St) (ch : Nat) : List In → List (Option Nat)
+  | [] => []
+  | i :: r =>
+    let s' := (step s i).1
+    (if takesEffect s i then [(s'.chars ch).value] else []) ++ toldValues s' ch r
+
+theorem update_keeps_conns (s : St) (i : In) (u : Nat × Option Nat × Bool × Nat) (hu : updateOf i = some u) :
+    (step s i).1.conns = s.conns := by
+  cases i with
+  | localSet ch v =>
+    simp only [step, update]
+    split
+    · rfl
+    · split
+      · rfl
+      · split <;> rfl
+  | remoteWrite c ch v =>
+    simp only [step]
+    split
+    · split
+      · simp only [update]
+        split
+        · rfl
+        · split
+          · rfl
+          · split <;> rfl
+      · rfl
+    · rfl
+  | connect c => simp [updateOf] at hu
+  | verify c => simp [updateOf] at hu
+  | close c => simp [updateOf] at hu
+  | subscribe c ch => simp [updateOf] at hu
+  | unsubscribe c ch => simp [updateOf] at hu
+
+theorem reach_snoc (chars : Nat → Notify.Char) (pre : List In) (i : In) :
+    reach chars (pre ++ [i]) = (step (reach chars pre) i).1 := by
+  simp [reach, stAfter, List.foldl_append]
+
+/-- Whole histories: a connection `d` that is subscribed to `ch` — after any history `pre` — is told, while any sequence of
+    updates of `ch` by others follows (local sets, writes of other controllers, several in one request or in many, changing
+    and non-changing), exactly the values of the updates that took effect, once each and in the order in which they were
+    made. (One-step exactness is `fanout_exact`; this is its closure under repetition: nothing is lost, doubled or reordered
+    over a run — what the streams `entries` and `churn` observe on the wire.) -/
+theorem subscriber_told_every_change_in_order (chars : Nat → Notify.Char) (d ch : Nat) (us : List In) :
+    ∀ (pre : List In),
+    (∃ k ∈ (reach chars pre).conns, k.id = d ∧ ch ∈ k.subs) →
+    (∀ i ∈ us, ∃ o cp v, updateOf i = some (ch, o, cp, v) ∧ o ≠ some d) →
+    (((run (reach chars pre) us).2.flatten).filter (·.to == d)).map (·.value) = toldValues (reach chars pre) ch us := by
+  induction us with
+  | nil => intro pre _ _; simp [run, toldValues]
+  | cons i r ih =>
+    intro pre hsub hus
+    obtain ⟨o, cp, v, hu, ho⟩ := hus i List.mem_cons_self
+    have hconns := update_keeps_conns (reach chars pre) i _ hu
+    have hsub' : ∃ k ∈ (reach chars (pre ++ [i])).conns, k.id = d ∧ ch ∈ k.subs := by
+      rw [reach_snoc, hconns]; exact hsub
+    have ihr := ih (pre ++ [i]) hsub' (fun j hj => hus j (List.mem_cons_of_mem _ hj))
+    rw [reach_snoc] at ihr
+    have hf := fanout_exact chars pre i
+    simp only at hf
+    simp only [run, toldValues, List.flatten_cons, List.filter_append, List.map_append]
+    rw [ihr]
+    congr 1
+    by_cases hte : takesEffect (reach chars pre) i = true
+    · obtain ⟨hcount, hev⟩ := hf.2 hte ch o cp v hu
+      have hc := hcount d
+      have hex : ∃ k ∈ (step (reach chars pre) i).1.conns, k.id = d ∧ some d ≠ o ∧ ch ∈ k.subs := by
+        rw [hconns]
+        obtain ⟨k, hk, h1, h2⟩ := hsub
+        exact ⟨k, hk, h1, fun h => ho h.symm, h2⟩
+      rw [if_pos hex] at hc
+      simp only [hte, if_true]
+      obtain ⟨e, hl⟩ := List.length_eq_one_iff.mp hc
+      have hmem : e ∈ (step (reach chars pre) i).2 := by
+        have : e ∈ ((step (reach chars pre) i).2.filter (·.to == d)) := by rw [hl]; exact List.mem_singleton.mpr rfl
+        exact (List.mem_filter.mp this).1
+      rw [hl]
+      simp [(hev e hmem).2]
+    · have hte' : takesEffect (reach chars pre) i = false := by simpa using hte
+      simp [hf.1 hte', hte']
+
 /-- the connection that made the change receives no event -/
 theorem originator_excluded (chars : Nat → Notify.Char) (h : List In) (c ch v : Nat) :
     ∀ e ∈ (step (reach chars h) (.remoteWrite c ch v)).2, e.to ≠ c := by
